@@ -1094,6 +1094,22 @@ func (tb *TB) sliceOb(x *ssa.Slice) *BoundOb {
 	okLow := x.Low == nil || s.implied("0", los, loo) || tb.nonNegative(s, x.Low)
 	okOrder := s.implied(los, his, hio-loo)
 	okHigh := x.High == nil || s.implied(his, limitS, limitC-hio)
+	if ph, isPhi := x.High.(*ssa.Phi); isPhi && (!okOrder || !okHigh) {
+		// a merged upper bound (n from a helper that returns 0 on its error exits): each incoming
+		// value on its own
+		allOrder, allHigh := true, true
+		for i, e := range ph.Edges {
+			es, eo := linear(tb.Term(e))
+			// under what is known where the value comes from (the axioms of the call that
+			// produced it hold on that way only)
+			pr := ph.Block().Preds[i]
+			se := tb.system(pr.Instrs[len(pr.Instrs)-1])
+			allOrder = allOrder && (se.implied(los, es, eo-loo) || se.linImplied(los, es, eo-loo))
+			allHigh = allHigh && (se.implied(es, limitS, limitC-eo) || se.linImplied(es, limitS, limitC-eo))
+		}
+		okOrder = okOrder || allOrder
+		okHigh = okHigh || allHigh
+	}
 	if !okHigh && his == "0" && hio == 0 && limitC >= 0 {
 		okHigh = true // x[:0]: a length or capacity is never negative
 	}
